@@ -21,6 +21,7 @@ pub mod c16;
 pub mod c17;
 pub mod c18;
 pub mod c19;
+pub mod c20;
 pub mod fmt;
 
 pub struct PropDef {
@@ -51,5 +52,6 @@ pub fn registry() -> Vec<PropDef> {
         PropDef { id: "C17", run: c17::run, replay: c17::replay },
         PropDef { id: "C18", run: c18::run, replay: c18::replay },
         PropDef { id: "C19", run: c19::run, replay: c19::replay },
+        PropDef { id: "C20", run: c20::run, replay: c20::replay },
     ]
 }
